@@ -416,6 +416,7 @@ func C20(c *vlib.Ctx) {
 	c20PathSpellings(c, root, &row)
 	c20NameSpellings(c, root, &row)
 	c20ActorShapes(c, root, &row)
+	c20WriteFailures(c, root, &row)
 }
 
 // c20CrossCheckSpec compares the transcribed table with the flag headings of spec.md.
@@ -447,6 +448,75 @@ func c20CrossCheckSpec(c *vlib.Ctx) {
 		}
 	}
 	c.Set("spec_md_tools_cross_checked", checked)
+}
+
+// c20WriteFailures: the config write itself fails at its last step (the path is
+// occupied by a directory, by a non-empty directory, or its parent vanished).
+// The call must report an error, leave no file behind anywhere near the
+// configured path (no temporary files either) and be audited once as an error.
+func c20WriteFailures(c *vlib.Ctx, root string, row *int) {
+	valid := c20Config + "/extra { pull { path /pull/extra } }\n"
+	obstacles := []struct {
+		name  string
+		setup func(f c20Fixture)
+	}{
+		{"path_is_empty_directory", func(f c20Fixture) { _ = os.Remove(f.Cfg); _ = os.Mkdir(f.Cfg, 0o755) }},
+		{"path_is_non_empty_directory", func(f c20Fixture) {
+			_ = os.Remove(f.Cfg)
+			_ = os.Mkdir(f.Cfg, 0o755)
+			_ = os.WriteFile(filepath.Join(f.Cfg, "inside"), []byte("x"), 0o644)
+		}},
+	}
+	calls := []struct {
+		tool string
+		args map[string]any
+	}{
+		{"config_apply", map[string]any{"content": valid, "mode": "write_only"}},
+		{"config_apply", map[string]any{"content": valid, "mode": "write_and_reload", "reload_timeout": "100ms"}},
+	}
+	for _, ob := range obstacles {
+		for _, cl := range calls {
+			for rep := 0; rep < 2; rep++ {
+				*row++
+				f, err := c20NewFixture(root, *row)
+				if err != nil {
+					c.Inconclusive(err.Error())
+					return
+				}
+				ob.setup(f)
+				before := c20Snapshot(f.Dir)
+				var ro rpcOut
+				var recs []map[string]any
+				for k := 0; k <= rep; k++ { // the second repetition calls twice: leftovers must not accumulate
+					ro, recs, err = c20Call(f, "admin", true, true, "alice", "tools/call", map[string]any{"name": cl.tool, "arguments": cl.args})
+				}
+				after := c20Snapshot(f.Dir)
+				if err != nil {
+					c.Inconclusive("C20 write failure case: " + err.Error())
+					_ = os.RemoveAll(f.Dir)
+					continue
+				}
+				c.Count("evaluations", 1)
+				c.Count("write_failure_calls", 1)
+				c.Distinct("nontrivial", fmt.Sprintf("write_failure:%s:%s:%v:calls=%d", ob.name, cl.tool, cl.args["mode"], rep+1))
+				text := ""
+				if len(ro.Result.Content) > 0 {
+					text = ro.Result.Content[0].Text
+				}
+				wit := map[string]any{"obstacle": ob.name, "tool": cl.tool, "arguments_mode": cl.args["mode"], "is_error": ro.Result.IsError, "text": text[:minInt(300, len(text))], "fs_diff": fsDiff(before, after), "audit": recs}
+				if d := fsDiff(before, after); len(d) > 0 {
+					c.Violation(vlib.Signature{"class": "touched_other_file", "tool": cl.tool, "case": "write_failure:" + ob.name}, fmt.Sprintf("%s failed to replace the config path (%s) but left changes behind: %v", cl.tool, ob.name, d), wit)
+				}
+				if !(ro.Error != nil || ro.Result.IsError) {
+					c.Violation(vlib.Signature{"class": "failed_write_reported_ok", "tool": cl.tool, "case": ob.name}, fmt.Sprintf("%s reported success although the config path is %s", cl.tool, ob.name), wit)
+				}
+				if len(recs) != 1 {
+					c.Violation(vlib.Signature{"class": "audit_record_count", "tool": cl.tool, "case": "write_failure"}, fmt.Sprintf("%d audit records for one mutating call", len(recs)), wit)
+				}
+				_ = os.RemoveAll(f.Dir)
+			}
+		}
+	}
 }
 
 // c20ActorShapes: a mismatching actor crossed with every optional argument
